@@ -761,10 +761,8 @@ def run(ctx):
     ctx.note("max_depth", depth)
     ctx.note("frontier_exhausted", False)
     if nodedup_depth is not None:
-        before = sum(ctx.vcount.values())
         seen2, per2 = bfs(ctx, nodedup_depth, False, "histories without dedup")
         ctx.note("bfs_levels_without_dedup", per2)
-        seen_d, _ = None, None
         # canonical states reachable within nodedup_depth: with dedup the same set must have been found
         reach = set(c for c, case in seen.items() if len(case[1]) <= nodedup_depth)
         ctx.guard(set(seen2) == reach,
